@@ -608,7 +608,10 @@ def r02d(ctx):
             disj = list(g.values) if isinstance(g, ast.BoolOp) and isinstance(g.op, ast.Or) else ([g] if g is not None else [])
             bad = []
             for d in disj:
-                t = ast.unparse(d)
+                try:
+                    t = ast.unparse(defs.expand(d, at=p.stmt))
+                except Exception:  # noqa: BLE001
+                    t = ast.unparse(d)
                 single_input = re.fullmatch(r"len\(\w+\) == 1", t) is not None
                 equal_known = ".divisions ==" in t and "known_divisions" in t
                 one_partition = "npartitions == 1" in t
